@@ -28,7 +28,20 @@ class Scenario:
         return "\n".join(self.cmds) + "\n"
 
 # ------------------------------------------------------------------ proofs
-def proof_status(pid):
+def coqchk_status(pid):
+    """thorough tier: the independent checker re-checks the compiled property file and everything it depends on"""
+    with vlib.Lock("coq"):
+        rc, out = vlib.sh(["coqchk", "-o", "-silent", "-Q", ".", "Econf", "Econf.Properties_%s" % pid], cwd=COQ, timeout=3600)
+    summ = out[out.find("CONTEXT SUMMARY"):] if "CONTEXT SUMMARY" in out else out[-2000:]
+    sec = {}
+    for m in re.finditer(r"\* ([^\n:]+):(.*?)(?=\n\* |\Z)", summ, re.S):
+        body = m.group(2).strip()
+        sec[m.group(1).strip()] = [] if body == "<none>" else [l.strip() for l in body.split("\n") if l.strip()]
+    bad = [k for k in ("Constants/Inductives relying on type-in-type", "Constants/Inductives relying on unsafe (co)fixpoints",
+                       "Inductives whose positivity is assumed") if sec.get(k)]
+    return {"exit": rc, "axioms": sec.get("Axioms", []), "unsafe": bad, "ok": rc == 0 and not bad, "tail": out[-600:] if rc else ""}
+
+def proof_status(pid, tier="quick"):
     """build the development, re-check Properties_<pid>.v and read its assumptions.
     Returns dict(obligations, discharged, theorems, axioms, ok, log)."""
     pf = os.path.join(COQ, "Properties_%s.v" % pid)
@@ -71,15 +84,22 @@ def proof_status(pid):
     if not res["ok"]:
         res["log"] = "assumptions outside the allow-list or missing Print Assumptions: %r" % res["axioms"]
         res["broken_at"] = "Properties_%s.v" % pid
+    if res["ok"] and tier == "thorough":
+        ck = coqchk_status(pid)
+        res["coqchk"] = ck
+        if not ck["ok"]:
+            res["ok"] = False; res["log"] = "coqchk: exit %s %s %s" % (ck["exit"], ck["unsafe"], ck["tail"]); res["broken_at"] = "coqchk Properties_%s" % pid
     return res
 
 TRUSTED_BASE = [
     "Coq 8.16.1 kernel (coqc; vm_compute used for finite sweeps and examples; no native_compute)",
     "no axioms declared by the development; per-theorem Print Assumptions output is in coverage.axioms",
     "extraction with ExtrOcamlBasic only (bool, option, unit, list, prod, sumbool, sumor mapped to OCaml types; "
-    "andb orb negb fst snd inlined); OCaml 4.13.1; ocaml/driver.ml (scenario parsing and printing)",
+    "andb orb negb fst snd inlined) plus one directive of our own, Extract Constant List.rev => \"List.rev\" "
+    "(Coq's rev is quadratic); OCaml 4.13.1; ocaml/driver.ml (scenario parsing and printing)",
+    "thorough tier: coqchk -o re-checks the compiled property file and its dependencies (coverage.coqchk)",
     "hand-written model coq/*Model.v, Scenario.v tied to /repo by differential execution "
-    "(harness/econf_driver.c built with ASan+UBSan from the working tree, tools/vlib.py comparator)",
+    "(harness/econf_driver.c built with gcc ASan+UBSan — TSan for C18, clang MemorySanitizer for C04/C20 — from the working tree, tools/vlib.py comparator)",
     "tools/gen_facts.py (regex translator of tables and inventories into coq/Generated_*.v)",
     "glibc: getline, isspace/tolower in the C locale, strtol family, printf, strtod (oracle tools/floatoracle.py), "
     "file system calls; gcc; allocation never fails",
@@ -188,8 +208,9 @@ def generic_check(pid, tier, seed, mod):
     viol = []          # (scenario, detail)
     notes = []
 
-    ps = proof_status(pid)
+    ps = proof_status(pid, tier)
     cov.update(obligations=ps["obligations"], discharged=ps["discharged"], theorems=ps["theorems"], axioms=ps["axioms"])
+    if "coqchk" in ps: cov["coqchk"] = {"exit": ps["coqchk"]["exit"], "axioms_of_all_loaded_libraries": ps["coqchk"]["axioms"], "unsafe": ps["coqchk"]["unsafe"]}
     proof_broken = not ps["ok"]
     if proof_broken:
         notes.append("proof obligation no longer checks: %s: %s" % (ps.get("broken_at"), ps["log"][-800:]))
